@@ -158,10 +158,11 @@ func ruleStopCallsField(c *chk.Ctx, owner string, f *types.Var, what string) {
 			closeSite = s.instr
 		}
 	}
-	q := ir.PathQuery{Goal: func(i ssa.Instruction) bool {
+	// (the call may sit in a private helper — a method of the type that owns the field)
+	q := ir.PathQuery{Goal: c.P.LiftGoal(func(i ssa.Instruction) bool {
 		ci, ok := i.(ssa.CallInstruction)
 		return ok && chk.LoadsField(ci.Common().Value, f)
-	}}
+	}, 0)}
 	ok, _ := q.MustReach(closeSite)
 	c.Check(ok, "TOKEN.stop", stop, what, closeSite.Pos(), "every path from Close invokes "+f.Name(), "the stop function can return without invoking "+f.Name()+": "+what+" would not end at stop")
 }
@@ -210,7 +211,7 @@ func ruleRetainNotifications(c *chk.Ctx) {
 	cbs, _ := c.P.FuncValues(each.Common().Args[len(each.Common().Args)-1])
 	found := false
 	for _, cb := range cbs {
-		ir.Instrs(cb, func(ins ssa.Instruction) {
+		c.P.ExtInstrs(cb, func(ins ssa.Instruction) {
 			call, ok := ins.(*ssa.Call)
 			if !ok {
 				return
@@ -332,6 +333,14 @@ func ruleDispatcherExit(c *chk.Ctx) {
 		return
 	}
 	f := pop.Parent()
+	// (a straight-line "pop" method of a queue type is the dequeue of its one caller)
+	for i := 0; i < 2 && len(f.Blocks) == 1; i++ {
+		site, sole := c.P.SoleCaller(f)
+		if !sole {
+			break
+		}
+		f = site.Caller
+	}
 	n := 0
 	ir.Instrs(f, func(ins ssa.Instruction) {
 		r, ok := ins.(*ssa.Return)
